@@ -55,7 +55,7 @@ def decl_block(g, lang):
         num = ' %d' % t['num'] if t.get('num') is not None else ''
         out.append('%%token <%s> %s%s\n' % (t['tag'], gram.tname(g, i), num))
     for n in g['nonterms']:
-        out.append('%%type <%s> %s\n' % (n['tag'], n['name']))
+        out.append('%%%s <%s> %s\n' % ('token' if n.get('as_token') else 'type', n['tag'], n['name']))
     for kind, ts in g['precs']:
         out.append('%%%s %s\n' % (kind, ' '.join(gram.tname(g, i) for i in ts)))
     if not (g.get('implicit_start') and g['nonterms'][g['start']]['name'] == 'start'):
